@@ -16,7 +16,14 @@ func init() { h.Register("C11", driveC11) }
 // correspondence table (scenario, observed outcome) for the model.
 func ccDrive(c *h.Ctx, prop string, cases []ccGenCase, casesFile string, keep func(sig string) bool) error {
 	var rows []string
+	seenSig := map[string]int{}
+	nbad := 0
 	for i, gc := range cases {
+		if nbad >= 30 {
+			// enough failing inputs: do not spend the whole budget on a broken tree
+			c.Extra("stopped_after_failing_scenarios", nbad)
+			break
+		}
 		sc := gc.Sc
 		t0 := time.Now()
 		obs := ccRun(sc, false)
@@ -54,10 +61,16 @@ func ccDrive(c *h.Ctx, prop string, cases []ccGenCase, casesFile string, keep fu
 		}
 		for _, v := range vs {
 			if keep == nil || keep(v.Sig) {
-				ev := ccRun(sc, true) // once more, keeping the transport's event log for the report
-				caseJSON["events"] = ev.Events
+				if seenSig[v.Sig] < 3 {
+					ev := ccRun(sc, true) // once more, keeping the transport's event log for the report
+					caseJSON["events"] = ev.Events
+				}
+				seenSig[v.Sig]++
 				c.Fail(prop+"/"+v.Sig, v.Desc+" -- "+ccDescribe(sc), caseJSON)
 			}
+		}
+		if len(vs) > 0 {
+			nbad++
 		}
 		// ---- row for the model
 		rows = append(rows, "("+ccCoqScenario(sc)+", "+ccCoqOutcome(obs)+")")
@@ -75,17 +88,38 @@ func ccReplayCases(c *h.Ctx) ([]ccGenCase, bool, error) {
 	if c.Replay == nil {
 		return nil, false, nil
 	}
-	m, _ := c.Replay["case"].(map[string]any)
-	if m == nil || m["scenario"] == nil {
-		return nil, true, fmt.Errorf("replay file holds no scenario (kind=%v): re-run the check itself", c.Replay["kind"])
-	}
-	sc, err := ccScenarioFromJSON(m["scenario"])
-	if err != nil {
-		return nil, true, err
-	}
 	var out []ccGenCase
-	for i := 0; i < 8; i++ { // racy windows: several runs
-		out = append(out, ccGenCase{"replay", sc})
+	add := func(v any) error {
+		sc, err := ccScenarioFromJSON(v)
+		if err != nil {
+			return err
+		}
+		for i := 0; i < 8; i++ { // racy windows: several runs
+			out = append(out, ccGenCase{"replay", sc})
+		}
+		return nil
+	}
+	if m, _ := c.Replay["case"].(map[string]any); m != nil && m["scenario"] != nil {
+		return out, true, add(m["scenario"])
+	}
+	// a broken correspondence without a failing input: replay the first disagreeing scenarios
+	if bl, _ := c.Replay["broken"].([]any); bl != nil {
+		for _, b := range bl {
+			bm, _ := b.(map[string]any)
+			fl, _ := bm["first"].([]any)
+			for _, f := range fl {
+				fm, _ := f.(map[string]any)
+				cm, _ := fm["case"].(map[string]any)
+				if cm != nil && cm["scenario"] != nil {
+					if err := add(cm["scenario"]); err != nil {
+						return nil, true, err
+					}
+				}
+			}
+		}
+	}
+	if len(out) == 0 {
+		return nil, true, fmt.Errorf("replay file holds no scenario (kind=%v): re-run the check itself", c.Replay["kind"])
 	}
 	return out, true, nil
 }
@@ -103,9 +137,9 @@ func driveC11(c *h.Ctx) error {
 	}
 	if !replay {
 		cases = append(cases, ccGenSingle()...)
-		cases = append(cases, ccGenChains(c.Rng.Fork(11), c.Pick(150, 3000))...)
+		cases = append(cases, ccGenChains(c.Rng.Fork(11), c.Pick(150, 1500))...)
 		cases = append(cases, ccGenTriggers()...)
-		cases = append(cases, ccGenRandom(c.Rng.Fork(12), c.Pick(400, 20000))...)
+		cases = append(cases, ccGenRandom(c.Rng.Fork(12), c.Pick(400, 8000))...)
 	}
 	b, _ := json.Marshal(len(cases))
 	c.Extra("scenarios", json.RawMessage(b))
